@@ -101,4 +101,185 @@ func (h *harness) blockTxAll() {
 			h.blockTxImage(chainSpec{Seed: 11, Counts: counts, Layout: string(layout)}, "enum3")
 		}
 	}
+	h.blockTxImage(chainSpec{NoHeight: true}, "empty-db")
+	n := h.f.Scale(40, 600)
+	for i := 0; i < n; i++ {
+		h.blockTxHistory(h.genSpec(h.r.Fork(uint64(i))), h.f.Scale(14, 40))
+	}
+}
+
+// genSpec draws a pre-migration database (everything in the previous layout).
+func (h *harness) genSpec(r *lib.RNG) chainSpec {
+	heights := []int{0, 1, 8, 9, 10, 11, 19, 20, 21, 29, 30, 31, 39, 40, 45, 59, 60, 61}
+	n := lib.Pick(r, heights) + 1
+	if r.Chance(1, 4) {
+		n = r.Range(1, 64)
+	}
+	counts := make([]int, n)
+	kind := r.Intn(6)
+	for b := range counts {
+		switch kind {
+		case 0: // dense
+			counts[b] = r.Range(1, 3)
+		case 1: // sparse
+			if r.Chance(1, 3) {
+				counts[b] = r.Range(1, 2)
+			}
+		case 2: // leading empty prefix
+			counts[b] = r.Range(1, 2)
+		case 3: // whole aligned ranges empty
+			counts[b] = r.Range(1, 2)
+		case 4: // mostly empty
+			if r.Chance(1, 12) {
+				counts[b] = 1
+			}
+		default:
+			counts[b] = r.Intn(3)
+		}
+	}
+	if kind == 2 {
+		k := lib.Pick(r, []int{1, 9, 10, 11, 13, 20, 25})
+		for b := 0; b < k && b < n; b++ {
+			counts[b] = 0
+		}
+	}
+	if kind == 3 {
+		for rg := 0; rg*btBatch < n; rg++ {
+			if r.Chance(1, 3) {
+				for b := rg * btBatch; b < (rg+1)*btBatch && b < n; b++ {
+					counts[b] = 0
+				}
+			}
+		}
+	}
+	layout := make([]byte, n)
+	for b := range layout {
+		if counts[b] == 0 {
+			layout[b] = '-'
+		} else {
+			layout[b] = 'o'
+		}
+	}
+	return chainSpec{Seed: r.Uint64() % 1000, Counts: counts, Layout: string(layout)}
+}
+
+// resumeAndCheck resumes from image img (of spec c) until the migration reports completion,
+// checking every step against the model and the property at the end. twin is the database an
+// uninterrupted run produced (nil: not compared).
+func (h *harness) resumeAndCheck(c chainSpec, img *memory.Database, twin map[string]string, where string, depth int) {
+	imgSpec := specOfImage(c, img)
+	cur := img
+	for round := 0; round < 4; round++ {
+		plan := btPlan{}
+		if depth > 0 && round == 0 && h.r.Chance(1, 3) {
+			plan = btPlan{Inflate: h.r.Bool(), CancelAtCmt: h.r.Range(1, 3)}
+		}
+		o := runBlockTx(cur, plan, false)
+		h.res.Case(fmt.Sprintf("resume|%d|%v|%s|%+v", c.Seed, c.Counts, layoutOf(cur, c.height()), plan), o.commits > 0)
+		h.res.Hit("bt-resume:" + o.ret)
+		if o.ret == "hang" || o.ret == "panic" {
+			h.res.Violate(lib.Violation{Sig: "blocktx-migrate-" + o.ret, What: o.errText, Replay: btReplay{specOfImage(c, cur), "run Migrate", 0}})
+			return
+		}
+		h.bt.transition(c, cur, o.final, "return", o.ret, where)
+		if o.ret == "failed" {
+			h.res.Violate(lib.Violation{Sig: "blocktx-resume-fails", What: "resumed migration returns an error: " + o.errText,
+				Replay: btReplay{specOfImage(c, cur), "run Migrate", 0}})
+			return
+		}
+		if o.ret == "done" {
+			if plan == (btPlan{}) {
+				imgSpec = specOfImage(c, cur)
+			}
+			good := checkFinal(h.res, c, imgSpec, o.final)
+			if good && twin != nil {
+				if same, why := sameDump(dump(o.final), twin); !same {
+					h.res.Violate(lib.Violation{Sig: "blocktx-final-db-differs-from-uninterrupted-run", What: why,
+						Replay: btReplay{imgSpec, "resume from this image vs. uninterrupted run from the all-old database", 0}})
+				}
+			}
+			return
+		}
+		cur = o.final
+	}
+	h.res.Violate(lib.Violation{Sig: "blocktx-resume-does-not-complete", What: "4 uninterrupted reruns did not complete the migration",
+		Replay: btReplay{imgSpec, "run Migrate repeatedly", 0}})
+}
+
+// blockTxHistory: one generated pre-migration database; the real migration is run uninterrupted
+// (the twin), then with a crash after every commit and with cancellation at every commit / at
+// sampled reads, each followed by reruns.
+func (h *harness) blockTxHistory(c chainSpec, budget int) {
+	d, err := c.build()
+	if err != nil {
+		h.res.Note("spec does not build: %v", err)
+		return
+	}
+	h.res.Sample(6, map[string]any{"kind": "blocktx-history", "spec": c})
+	tw := runBlockTx(d, btPlan{}, false)
+	h.res.Case(fmt.Sprintf("twin|%d|%v", c.Seed, c.Counts), tw.commits > 0)
+	h.res.Hit("bt-run:" + tw.ret)
+	if tw.ret != "done" {
+		h.res.Violate(lib.Violation{Sig: "blocktx-uninterrupted-run-not-complete", What: tw.ret + " " + tw.errText,
+			Replay: btReplay{c, "run Migrate", 0}})
+		return
+	}
+	h.bt.transition(c, d, tw.final, "return", "done", "twin")
+	checkFinal(h.res, c, c, tw.final)
+	twin := dump(tw.final)
+
+	for _, inflate := range []bool{true, false} {
+		// crash after every commit of an otherwise uninterrupted run
+		o := runBlockTx(d, btPlan{Inflate: inflate}, true)
+		h.res.Case(fmt.Sprintf("images|%d|%v|%v", c.Seed, c.Counts, inflate), o.commits > 0)
+		h.res.HitN("bt-commits", o.commits)
+		for k, img := range o.images {
+			if budget <= 0 {
+				break
+			}
+			if len(o.images) > 6 && !h.r.Chance(6, len(o.images)) && k != 0 {
+				continue
+			}
+			budget--
+			h.res.Hit("bt-crash-image")
+			l := layoutOf(img, c.height())
+			if strings.Contains(l, "n") && strings.Contains(l[strings.Index(l, "n"):], "o") {
+				h.res.Hit("bt-crash-image:hole")
+			}
+			h.bt.transition(c, d, img, "crash", "", fmt.Sprintf("crash-after-commit-%d", k+1))
+			h.resumeAndCheck(c, img, twin, "resume-after-crash", 1)
+		}
+		// cancellation right after commit k
+		for k := 1; k <= o.commits && budget > 0; k++ {
+			if o.commits > 5 && !h.r.Chance(5, o.commits) {
+				continue
+			}
+			budget--
+			oc := runBlockTx(d, btPlan{Inflate: inflate, CancelAtCmt: k}, false)
+			h.res.Hit("bt-cancel-at-commit:" + oc.ret)
+			if oc.ret == "hang" || oc.ret == "panic" || oc.ret == "failed" {
+				h.res.Violate(lib.Violation{Sig: "blocktx-cancelled-run-" + oc.ret, What: oc.errText, Replay: btReplay{c, "cancel after commit", 0}})
+				continue
+			}
+			h.bt.transition(c, d, oc.final, "return", oc.ret, fmt.Sprintf("cancel-after-commit-%d", k))
+			h.resumeAndCheck(c, oc.final, twin, "resume-after-cancel", 1)
+		}
+	}
+	// cancellation at a database read (reaches the source while ingestors are busy), and before the start
+	reads := int64(3*len(c.Counts) + 4)
+	for i := 0; i < 3 && budget > 0; i++ {
+		budget--
+		p := btPlan{CancelAtGet: 1 + int64(h.r.Intn(int(reads)))}
+		if i == 0 {
+			p = btPlan{PreCancel: true}
+		}
+		oc := runBlockTx(d, p, false)
+		h.res.Hit("bt-cancel-at-read:" + oc.ret)
+		if oc.ret == "hang" || oc.ret == "panic" || oc.ret == "failed" {
+			h.res.Violate(lib.Violation{Sig: "blocktx-cancelled-run-" + oc.ret, What: oc.errText, Replay: btReplay{c, "cancel at read", 0}})
+			continue
+		}
+		h.bt.transition(c, d, oc.final, "return", oc.ret, "cancel-at-read")
+		h.resumeAndCheck(c, oc.final, twin, "resume-after-cancel", 1)
+	}
 }
